@@ -1,5 +1,6 @@
 // optimization passes - runs on typed AST before codegen
 
+mod binders;
 mod constant_fold;
 mod dead_code;
 mod global_const_prop;
